@@ -47,8 +47,13 @@ enum Gap {
     Required,
 }
 
-const OPT: [&str; 4] = ["", " ", "  ", "\t"];
-const REQ: [&str; 3] = [" ", "  ", "\t"];
+// The first four / three alternatives are the homogeneous gaps (used by the
+// uniform layouts and the all-combinations family); the rest mix blank kinds
+// inside one gap and are reached by the 1- and 2-slot deviations.
+const OPT: [&str; 7] = ["", " ", "  ", "\t", " \t", "\t ", "  \t "];
+const REQ: [&str; 6] = [" ", "  ", "\t", " \t", "\t ", "  \t "];
+const OPT_HOMOGENEOUS: usize = 4;
+const REQ_HOMOGENEOUS: usize = 3;
 
 fn gap(a: Option<&T>, b: Option<&T>) -> Gap {
     match (a, b) {
@@ -259,6 +264,14 @@ fn emit_layouts(fam_dev: &'static str, toks: &[T], tree: &Expr, wrap: Option<&st
     }
 }
 
+fn homogeneous(g: Gap) -> usize {
+    match g {
+        Gap::Fixed => 1,
+        Gap::Optional => OPT_HOMOGENEOUS,
+        Gap::Required => REQ_HOMOGENEOUS,
+    }
+}
+
 fn emit_all_layouts(toks: &[T], tree: &Expr, sink: &mut dyn FnMut(Case)) {
     let g = gaps(toks);
     let mut c = vec![0usize; g.len()];
@@ -271,7 +284,7 @@ fn emit_all_layouts(toks: &[T], tree: &Expr, sink: &mut dyn FnMut(Case)) {
             }
             i -= 1;
             c[i] += 1;
-            if c[i] < alts(g[i]).len() {
+            if c[i] < homogeneous(g[i]) {
                 break;
             }
             c[i] = 0;
@@ -287,7 +300,7 @@ impl Prop for C06 {
         "C06"
     }
     fn rule(&self) -> String {
-        "operand/operator sequences x0 op1 x1 .. opk xk (k<=5, operands 2 3 5 7 11 13, ops + - * / ^ and the ** synonym) x every bracketing (all binary tree shapes), each rendered with minimal and with full parentheses and compared with the reference evaluator run on the tree; the unparenthesised spelling against the tree the documented table prescribes; `to` chains over length quantities; redundant parentheses; parenthesised groups as function arguments; blank layouts: all combinations of {none,1,2 blanks,tab} per slot for <=2 operators, 4 uniform layouts plus every 1-slot (thorough: 2-slot) deviation beyond. Non-trivial = >=2 operators of different priority, or a parenthesis, or a non-canonical layout; distinct = distinct query strings".into()
+        "operand/operator sequences x0 op1 x1 .. opk xk (k<=5, operands 2 3 5 7 11 13, ops + - * / ^ and the ** synonym) x every bracketing (all binary tree shapes), each rendered with minimal and with full parentheses and compared with the reference evaluator run on the tree; the unparenthesised spelling against the tree the documented table prescribes; `to` chains over length quantities; redundant parentheses; parenthesised groups as function arguments; blank layouts: all combinations of {none,1,2 blanks,tab} per slot for <=2 operators, 4 uniform layouts plus every 1-slot (thorough: 2-slot) deviation beyond, a deviation being any other gap including gaps that mix blank kinds (space+tab, tab+space, spaces+tab+space). Non-trivial = >=2 operators of different priority, or a parenthesis, or a non-canonical layout; distinct = distinct query strings".into()
     }
     fn assumptions(&self) -> Vec<String> {
         vec![
@@ -496,7 +509,7 @@ impl Prop for C06 {
             "operator_sequence_length_max": 5,
             "bracketings": "all (Catalan 1,2,5,14,42)",
             "layouts": {"all_combinations_up_to_operators": 2, "slot_deviations": tier.pick(1, 2)},
-            "blank_kinds": ["none", "one space", "two spaces", "tab"],
+            "blank_kinds": ["none", "one space", "two spaces", "tab", "space+tab", "tab+space", "2 spaces+tab+space (mixed kinds only as 1-/2-slot deviations)"],
         })
     }
 }
